@@ -56,7 +56,7 @@ def shards(tier):
 def floors(tier):
     f = {"cases": 15000, "cases_with_errors": 4000, "arrangements": 3000, "chains": 300, "inner_store_refs": 100,
          "siblings_next_to_ref": 300, "hostile_name_resolutions": 2000, "recursive_cases": 1000,
-         "recursion_depth3plus": 200, "model_crosschecks": 2000, "max_scope_depth": 3, "transform_selfcheck_ok": 3000, "foreign_id_keywords_on_path": 500,
+         "recursion_depth3plus": 200, "model_crosschecks": 2000, "max_scope_depth": 3, "transform_selfcheck_ok": 3000, "foreign_id_keywords_on_path": 500, "relative_id_in_store_doc": 200,
          "uri_calibration": 60}
     for m in ("noid", "rootid", "rootid#", "nested"):
         f["mode:" + m] = 200
@@ -290,6 +290,7 @@ def run(ctx):
             ctx.count("inner_store_refs", info.get("inner_store_refs", 0))
             ctx.count("siblings_next_to_ref", info.get("siblings", 0))
             ctx.count("foreign_id_keywords_on_path", info.get("foreign_id_keywords", 0))
+            ctx.count("relative_id_in_store_doc", info.get("relative_id_in_store_doc", 0))
             ig = InstGen(rng, s0)
             for k, inst in enumerate(ig.batch(4)):
                 compare(ctx, d, arr.schema, arr.s0, arr.store, arr.handler_docs, inst, info, model=(k == 0))
